@@ -616,10 +616,15 @@ type replayCase struct {
 
 func allTmpls() []tmpl { return append(append([]tmpl{}, charTmpls...), blockTmpls...) }
 
+// ballast keeps the heap goal high: every execution ends with two forced GCs (timer-pool
+// drain), and without it the scavenger hands the freed pages back to the OS each time
+// (half of the CPU time went into madvise and page faults). Never written: not resident.
+var ballast = make([]byte, 256<<20)
+
 func TestCheck(t *testing.T) {
 	vfw.Main(t, "C18", func(c *vfw.Ctx) {
 		c.Level("model_checking")
-		c.Rule("E2 fault enumeration: two real secs1 connections (equipment = master, host = slave; T1/T2 100/300 ms and 110/340 ms, T4 10 s, T3 4 s) in one bubble joined by a middlebox that parses the E4 line protocol into line units (one handshake character, or one block transmission) and applies a fault plan addressed by (direction, unit index). Scenarios {equipment sends, host sends, both at the same virtual instant with their first ENQs made to cross in the middlebox} x message size {1,2,3 blocks} x RTY {0,1,3} x {no W, W with the receiving handler answering by ReplyDataMessage}; every sending side sends 2 token-carrying messages one after the other (after a failed send it waits for Selected). Fault alphabet per unit among the first 12 units of each direction (= the first 24 line units): handshake character {drop, replace by ENQ/EOT/ACK/NAK/0x00, delay T2+d, sticky drop (this and every later unit of the direction until the link is re-established), sticky replace-by-NAK}; block {drop, invert header byte 4 / body byte / either checksum byte, truncate at 1 / 5 / n-1, pause T1+d after 6 bytes, delay T2+d, sticky drop}; the length byte is never inverted (a shorter length can pass the checksum by coincidence). quick: the fault-free run and ALL single-fault plans of all 54 scenarios, plus ALL two-fault plans of the contention scenario 1 block / RTY 1 / no W; thorough: additionally all two-fault plans on a thinned scenario set, every byte position for the inversion in the 1-block scenarios, and the reverse TCP roles. In two-fault plans 'replace by ACK' and 'delay T2+d' are excluded (a forged ACK, or — once a late unit has left the answers one character behind — a stale ACK, can vouch for a block the receiver never took: E4 acknowledgements carry no sequence information, so no checksum or handshake detects it). Oracle: every send call that returned nil was delivered to the other side's data handler exactly once, byte-identical (W: and its reply came back byte-identical); nothing is delivered twice or altered; deliveries per direction are in send order; no block is requested more than RTY+1 times (ENQs since the last ACK, successful yield or visibly exhausted block, attributed to blocks by their headers); a side closes its socket in the middle of a send only after RTY+1 requests, and both sides are Selected again within 6 s; the master never grants the line while its own request is outstanding and never counts a yield; fault-free contention: the host yields and the equipment's message is delivered first; every send call returns within 25 s (else deadlock). non-trivial = at least one fault applied")
+		c.Rule("E2 fault enumeration: two real secs1 connections (equipment = master, host = slave; T1/T2 100/300 ms and 110/340 ms, T4 10 s, T3 4 s) in one bubble joined by a middlebox that parses the E4 line protocol into line units (one handshake character, or one block transmission) and applies a fault plan addressed by (direction, unit index). Scenarios {equipment sends, host sends, both at the same virtual instant with their first ENQs made to cross in the middlebox} x message size {1,2,3 blocks} x RTY {0,1,3} x {no W, W with the receiving handler answering by ReplyDataMessage}; every sending side sends 2 token-carrying messages one after the other (after a failed send it waits for Selected). Fault alphabet per unit among the first 12 units of each direction (= the first 24 line units): handshake character {drop, replace by ENQ/EOT/ACK/NAK/0x00, delay T2+d, sticky drop (this and every later unit of the direction until the link is re-established), sticky replace-by-NAK}; block {drop, invert header byte 4 / body byte / either checksum byte, truncate at 1 / 5 / n-1, pause T1+d after 6 bytes, delay T2+d, sticky drop}; the length byte is never inverted (a shorter length can pass the checksum by coincidence). quick: the fault-free run and ALL single-fault plans of all 54 scenarios, plus ALL two-fault plans of the contention scenario 1 block / RTY 1 / no W; thorough: additionally all two-fault plans of the scenarios with {1,2 blocks} x {RTY 0,1} (every direction, W and no W), 1 block / RTY 3 / no W and 3 blocks / RTY 1 / no W, every byte position for the inversion in the 1-block scenarios, and the reverse TCP roles. In two-fault plans 'replace by ACK' and 'delay T2+d' are excluded (a forged ACK, or — once a late unit has left the answers one character behind — a stale ACK, can vouch for a block the receiver never took: E4 acknowledgements carry no sequence information, so no checksum or handshake detects it). Oracle: every send call that returned nil was delivered to the other side's data handler exactly once, byte-identical (W: and its reply came back byte-identical); nothing is delivered twice or altered; deliveries per direction are in send order; no block is requested more than RTY+1 times (ENQs since the last ACK, successful yield or visibly exhausted block, attributed to blocks by their headers); a side closes its socket in the middle of a send only after RTY+1 requests, and both sides are Selected again within 6 s; the master never grants the line while its own request is outstanding and never counts a yield; fault-free contention: the host yields and the equipment's message is delivered first; every send call returns within 25 s (else deadlock). non-trivial = at least one fault applied")
 		c.Assume("testing/synctest virtual time and durable-blocking detection", "sim in-memory network", "the middlebox's protocol-derived unit boundaries are cross-checked against the libraries' write boundaries in every execution", "message bytes never contain ENQ (0x05), so the tail of a paused block cannot look like a request to send")
 		if c.Replay != nil {
 			var rc replayCase
@@ -748,7 +753,7 @@ func TestCheck(t *testing.T) {
 				}
 			}
 			for _, sc := range scs {
-				thin := (sc.Blocks == 1 && !sc.W) || (sc.Blocks == 2 && sc.Retry == 1)
+				thin := (sc.Blocks <= 2 && sc.Retry <= 1) || (sc.Blocks == 1 && !sc.W) || (sc.Blocks == 3 && sc.Retry == 1 && !sc.W)
 				if !thin || (sc.Dirs == "both" && sc.Blocks == 1 && sc.Retry == 1 && !sc.W) {
 					continue
 				}
